@@ -345,23 +345,12 @@ func (r *rwRT) ruleIterType() {
 		}
 	}
 	// the generator's own result type is built the same way
-	fn2 := r.method("yieldRewriter", "rewriteYieldFuncResult")
-	c.fn(relName(fn2))
-	st := newState()
-	fieldRef, _ := r.heapNode(st, "Field", map[string]AV{"Type": exprLeaf(r, "oldResult")})
-	resRef, _ := r.heapNode(st, "FieldList", map[string]AV{"List": SliceV{Elems: []AV{fieldRef}}})
-	ftRef, _ := r.heapNode(st, "FuncType", map[string]AV{"Results": resRef})
-	in := r.interp(rwConfig{root: fn2, inlineAll: true})
-	in.Fields["r.funcTyp"] = ftRef
-	in.Fields["r.yieldAst.seqImportedName"] = mkString("seq")
-	in.Fields["r.yieldAst.funRetParamTy"] = exprLeaf(r, "T")
-	outs := in.Run(st, fn2, []AV{Sym{Name: "r", NN: true}}, nil)
-	r.account(in)
+	o2, _, fieldRef, pos2, derr := r.runYieldFunc()
 	var err error
-	if len(outs) != 1 || outs[0].Panicked {
-		err = fmt.Errorf("not a single path")
+	if derr != nil {
+		err = derr
 	} else {
-		err = matchTmpl(outs[0].St, outs[0].St.Obj(fieldRef).Fields["Type"], nd("IndexExpr", map[string]Pat{"X": pSelect(nd("Ident", map[string]Pat{"Name": pStr{"seq"}}), "Iterator"), "Index": pLeaf{"T"}}))
+		err = matchTmpl(o2.St, o2.St.Obj(fieldRef).Fields["Type"], nd("IndexExpr", map[string]Pat{"X": pSelect(nd("Ident", map[string]Pat{"Name": pStr{"seq"}}), "Iterator"), "Index": pLeaf{"T"}}))
 	}
-	c.check(err == nil, "RW.TMPL.ITERTYPE", "generator result type", r.w.FnPos(fn2), "the result type becomes seq.Iterator[<element type>] — the same expression rewriteIter builds", fmt.Sprint(err))
+	c.check(err == nil, "RW.TMPL.ITERTYPE", "generator result type", pos2, "the result type becomes seq.Iterator[<element type>] — the same expression rewriteIter builds", fmt.Sprint(err))
 }
